@@ -268,6 +268,7 @@ def c13(ctx: Ctx) -> None:
     RS.rule_no_stale_caches(ctx)
     RF.rule_no_operand_mutation(ctx)
     RF.rule_no_global_mutation(ctx)
+    RF.rule_instance_fields_own(ctx)
     RF.rule_no_alias_results(ctx)
     RF.rule_time_only_in_stats(ctx)
     RK.rule_term_kernels(ctx, ["copy", "remove", "rename"])
@@ -309,6 +310,9 @@ def c14(ctx: Ctx) -> None:
     RE.rule_raise_message_types(ctx)
     # evaluate is public and documented to accept a partial valuation
     RK.rule_term_kernels(ctx, ["evaluate", "substitute"])
+    # the syntactic data classes combine the two sides of a relation OUTSIDE pyparsing (serializer): an IndexError /
+    # KeyError / ZeroDivisionError raised in them on a well-formed string is not turned into a syntax error
+    RPA.rule_data_kernels(ctx)
 
 
 def c19(ctx: Ctx) -> None:
